@@ -139,6 +139,33 @@ def IR.applyAll : IR → List BlockMods → Except Err IR
       | .error e => .error e
       | .ok ir' => IR.applyAll ir' rest
 
+/-! ### executable forms of the premises of the symbol-closure theorems (`Lemmas/IRSymClosed.lean`) -/
+
+/-- the section of the byte interval block `c` is attached to -/
+def IR.attSect (ir : IR) (c : Nat) : Option Nat := (ir.block? c).bind ir.sectionOf
+
+/-- every symbol that refers to a block refers to an attached one -/
+def IR.symsOkB (ir : IR) : Bool :=
+  ir.syms.all (fun y => match y.ref with
+    | .block b => (ir.attSect b).isSome
+    | _ => true)
+
+/-- the block ordering lists attached blocks of the right section, each once per chain -/
+def IR.ordOkB (ir : IR) : Bool :=
+  ir.order.all (fun (s, chains) => chains.all (fun ch => decide ch.Nodup && ch.all (fun b => ir.attSect b == some s)))
+
+/-- ids of the blocks a patch puts into its extra sections -/
+def Patch.otherIds (p : Patch) : List Nat := (p.others.map (fun s => s.1.blocks.map (·.id))).flatten
+
+/-- the objects of the patch are new (executable form of `PatchOk`) -/
+def IR.patchOkB (ir : IR) (p : Patch) : Bool :=
+  let ids := p.text.blocks.map (·.id) ++ p.otherIds
+  ids.all (fun c => (ir.block? c).isNone && decide (c < ir.next)) && decide ids.Nodup &&
+  p.others.all (fun x => (ir.interval? x.2.2).isNone) && decide (p.others.map (·.2.2)).Nodup &&
+  p.syms.all (fun y => match y.ref with
+    | .block b => ids.contains b
+    | _ => true)
+
 /-- the request as a listing edit (what `Listing.spliceSpec` consumes): only offset, removed
 length and inserted bytes matter for the bytes -/
 def Mod.toLEdit (m : Mod) : LEdit :=
